@@ -38,7 +38,7 @@ for t in $failed; do
   done
   [ $ok = 1 ] || still="$still $t"
 done
-if echo "$out" | grep -qE '^error(\[|:)' ; then still="$still COMPILE-ERROR"; fi
+if echo "$out" | grep -qE 'could not compile|^error\[E' ; then still="$still COMPILE-ERROR"; fi
 # 2. demo with the patch
 add_demo || { echo "VERIFY $ID: BAD demo does not apply"; exit 1; }
 out="$(timeout 3000 cargo test --offline -p "$CRATE" $FEAT "$@" 2>&1)"
